@@ -339,7 +339,7 @@ class C23(core.Check):
     # ------------------------------------------------------------------
     def post_batch(self, tier, stats):
         verif_seed = int(os.environ.get('VERIF_SEED', '0') or 0)
-        ncdefs = 48 if tier == 'quick' else 600
+        ncdefs = 96 if tier == "quick" else 800
         rng = PRNG(core.derive(verif_seed, 'C23', 'partB'))
         cases = []
         for i in range(ncdefs):
